@@ -38,6 +38,9 @@ from props.common import GEOM_CLASSES, MAXF, is_rejection, mkgeom
 
 ID = "C11"
 RULE = (
+    "[twins / representations / environment] two geometries of different type with the same coordinate numbers buffered one after the other; the buffers "
+    "given as int / numpy int64 / uint16 / float32 / float64 (same result as for Python floats); every pooled geometry x buffer vector once more under "
+    "numpy.errstate(all='raise') with warnings as errors (same result as in the default environment). "
     "BFS per pooled geometry over chains of buffer_geometry calls: a state is (geometry, last buffer vector); "
     "expanding a state executes every buffer vector (tb, fb) >= the last one componentwise (all 25 at depth 0) "
     "plus 24 vectors with a negative component, judges each result (valid_result, contains_original, "
